@@ -119,6 +119,32 @@ func (r *RMRemoting) LockQuery(param LockQueryParam) (bool, error) {
 	return false, nil
 }
 
+func init() {
+	// a new connection to the coordinator knows nothing of the resources announced on the old one
+	getty.AddSessionOpenListener(func() {
+		GetRMRemotingInstance().registerCachedResources()
+	})
+}
+
+// registerCachedResources announces every resource of every resource manager again.
+func (r *RMRemoting) registerCachedResources() {
+	GetRmCacheInstance().resourceManagerMap.Range(func(_, manager interface{}) bool {
+		resourceManager, ok := manager.(ResourceManager)
+		if !ok || resourceManager.GetCachedResources() == nil {
+			return true
+		}
+		resourceManager.GetCachedResources().Range(func(_, res interface{}) bool {
+			if resource, ok := res.(Resource); ok {
+				if err := r.RegisterResource(resource); err != nil {
+					log.Errorf("register resource %s again failed: %v", resource.GetResourceId(), err)
+				}
+			}
+			return true
+		})
+		return true
+	})
+}
+
 func (r *RMRemoting) RegisterResource(resource Resource) error {
 	req := message.RegisterRMRequest{
 		AbstractIdentifyRequest: message.AbstractIdentifyRequest{
